@@ -57,12 +57,11 @@ Fixpoint model_hops (hs : list hop) : res (list Z) :=
   | [] => Ok []
   | h :: r => let* a := model_hop h in let* b := model_hops r in Ok (a ++ b)
   end.
-Lemma model_hops_small hs : forallb wf_hop hs = true -> small_ports hs = true ->
-  model_hops hs = Ok (hops_bytes hs).
+Lemma model_hops_ok hs : forallb wf_hop hs = true -> model_hops hs = Ok (hops_bytes hs).
 Proof.
-  induction hs as [|h hs IH]; cbn [forallb small_ports model_hops hops_bytes flat_map]; [reflexivity|].
-  intros Hw Hs. apply andb_prop in Hw as [Hw1 Hw2]. apply andb_prop in Hs as [Hs1 Hs2].
-  rewrite (model_hop_small h Hw1) by lia. fold (small_ports hs) in Hs2. rewrite (IH Hw2 Hs2). reflexivity.
+  induction hs as [|h hs IH]; cbn [forallb model_hops hops_bytes flat_map]; [reflexivity|].
+  intros Hw. apply andb_prop in Hw as [Hw1 Hw2].
+  rewrite (model_hop_ok h Hw1). rewrite (IH Hw2). reflexivity.
 Qed.
 
 Lemma pair_up_encode fs : Nat.even (List.length fs) = true ->
@@ -119,10 +118,10 @@ Definition model_route (pl : bool) (hs : list hop) : res (list Z) :=
 Lemma encode_route_model segs pl hs :
   encode_segs true segs = model_hops hs -> encode_route segs pl = model_route pl hs.
 Proof. intros H. unfold encode_route, epath_encode, model_route, padded_PADDED_EPATH. now rewrite H. Qed.
-Lemma model_route_small pl hs : forallb wf_hop hs = true -> small_ports hs = true -> fits hs = true ->
+Lemma model_route_ok pl hs : forallb wf_hop hs = true -> fits hs = true ->
   model_route pl hs = Ok (route_wire pl hs).
 Proof.
-  intros Hw Hs Hf. unfold model_route. rewrite (model_hops_small hs Hw Hs). cbn [bind].
+  intros Hw Hf. unfold model_route. rewrite (model_hops_ok hs Hw). cbn [bind].
   unfold fits, route_words, tlen in Hf. rewrite USINT_encode_byte by (unfold len; lia). reflexivity.
 Qed.
 Lemma encode_route_err segs pl e :
@@ -353,17 +352,17 @@ Qed.
 
 (* acceptance: a string of the grammar yields exactly its reference reading *)
 Theorem grammar_accepted s auto pl h t hs :
-  must_accept (ref_parse auto s) = Some (h, t, hs) -> small_ports hs = true ->
+  must_accept (ref_parse auto s) = Some (h, t, hs) ->
   outcome s auto pl = inr (h, t, route_wire pl hs).
 Proof.
-  unfold must_accept. intros H Hs.
+  unfold must_accept. intros H.
   destruct (v_tcp (ref_parse auto s)) as [|p| |] eqn:Et; try discriminate;
     destruct (v_route (ref_parse auto s)) as [hs'| |c] eqn:Er; try discriminate;
     destruct (fits hs') eqn:Ef; try discriminate; injection H as <- <- <-.
   - destruct (outcome_of_reading s auto pl None hs') as [Ho Hw]; [now rewrite Et|exact Er|].
-    rewrite Ho. unfold accepted_outcome. now rewrite (model_route_small pl hs' Hw Hs Ef).
+    rewrite Ho. unfold accepted_outcome. now rewrite (model_route_ok pl hs' Hw Ef).
   - destruct (outcome_of_reading s auto pl (Some p) hs') as [Ho Hw]; [now rewrite Et|exact Er|].
-    rewrite Ho. unfold accepted_outcome. now rewrite (model_route_small pl hs' Hw Hs Ef).
+    rewrite Ho. unfold accepted_outcome. now rewrite (model_route_ok pl hs' Hw Ef).
 Qed.
 
 (* no silent corruption, also in the zones where the property is silent: whatever is accepted
@@ -374,7 +373,7 @@ Theorem accepted_is_reference s auto pl h t b :
   h = v_host v
   /\ match v_tcp v with TcpNone => t = None | TcpOk p => t = Some p | TcpBad => False | TcpLenient => True end
   /\ match v_route v with
-     | RouteOk hs => small_ports hs = true -> fits hs = true -> b = route_wire pl hs
+     | RouteOk hs => fits hs = true -> b = route_wire pl hs
      | RouteReject _ => False
      | RouteUnspec => True
      end.
@@ -401,8 +400,8 @@ Proof.
     + destruct Hh as [e He]. discriminate.
     + exact I.
   - destruct (classify_route auto _) as [hs| |c].
-    + intros Hs Hf. destruct Hr as [_ [Ho Hw]]. cbn [bind] in Ho.
-      rewrite (model_route_small pl hs Hw Hs Hf) in Ho. congruence.
+    + intros Hf. destruct Hr as [_ [Ho Hw]]. cbn [bind] in Ho.
+      rewrite (model_route_ok pl hs Hw Hf) in Ho. congruence.
     + exact I.
     + now apply (Hnot c).
 Qed.
